@@ -321,6 +321,15 @@ class CallMixin:
             st.assume(z3.ForAll([i], z3.Implies(z3.And(i >= 1, i < vv.n),
                       z3.Select(c, i) == self.binop(st, "+", z3.Select(c, i - 1), vv.at(i), ln)),
                       patterns=[z3.Select(c, i)]))
+            # monotonicity of prefix sums of non-negative terms (all-pairs form): justified by the inductive
+            # lemma `cumsum-monotone-induction-step`, discharged as its own obligation on every run
+            j = z3.Int(fresh_name("j"))
+            zero = self.fconst(0.0) if vv.kind == "float" else z3.IntVal(0)
+            nonneg = z3.ForAll([i], z3.Implies(z3.And(i >= 0, i < vv.n), self.to_bool(self.compare(st, ">=", vv.at(i), zero, ln))))
+            mono = z3.ForAll([i, j], z3.Implies(z3.And(0 <= i, i <= j, j < vv.n),
+                                               self.to_bool(self.compare(st, "<=", z3.Select(c, i), z3.Select(c, j), ln))))
+            st.assume(z3.Implies(nonneg, mono))
+            self.uses_cumsum_lemma = True
             return st.alloc(c, [vv.n], vv.kind)
         if fn == "diff":
             vv = self.as_vec(st, ev(args[0]))
